@@ -142,36 +142,61 @@ def run(rep: Report, tier: str) -> None:  # noqa: C901
                 rep.add(Finding("R06.4", f"R06.4/siblings/{a}-{b}", "src/vtlengine/duckdb_transpiler/Transpiler/operators.py", reg[b].line, f"registry[{b}]",
                                 f"sibling operators {a} / {b} have templates of different shape (`{ta}` vs `{tb}`): one of them treats the frame's datapoints differently"))
 
-    # ---- R06.5 windowing ----
+    # ---- R06.5 windowing: visit_Windowing evaluated (E6, abstract interpretation) over every frame shape ----
+    from sa import structmodel as sm
+    from sa.e6 import Interp, Raised, Unmodelled
     vw = P.func(f"{TR}.visit_Windowing")
-    bs = next((n for n in ast.walk(vw.node) if isinstance(n, ast.FunctionDef) and n.name == "bound_str"), None)
-    if bs is None:
-        raise AnalysisError("visit_Windowing.bound_str not found")
-    ns: Dict[str, object] = {}
-    code = ast.Module(body=[bs], type_ignores=[])
-    ast.fix_missing_locations(code)
-    allowed = {"str", "isinstance", "int", "mode", "value", "mode_up", "val_str", "is_range_date", "Union"}
-    used = {x.id for x in ast.walk(bs) if isinstance(x, ast.Name)}
-    if not used <= allowed:
-        raise AnalysisError(f"bound_str uses names outside the modelled set: {sorted(used - allowed)}")
-    bs.returns = None
-    for a in bs.args.args:
-        a.annotation = None
-    exec(compile(code, "<bound_str>", "exec"), {"__builtins__": {"str": str, "isinstance": isinstance, "int": int}, "is_range_date": False}, ns)  # evaluation of a pure local formatter
-    fn = ns["bound_str"]
-    table = {(-1, "preceding"): "UNBOUNDED PRECEDING", ("unbounded", "preceding"): "UNBOUNDED PRECEDING", ("unbounded", "following"): "UNBOUNDED FOLLOWING",
-             (-1, "following"): "UNBOUNDED FOLLOWING", (0, "current"): "CURRENT ROW", ("current row", "current"): "CURRENT ROW",
-             (2, "preceding"): "2 PRECEDING", (3, "following"): "3 FOLLOWING", (0, "preceding"): "0 PRECEDING", (1, "following"): "1 FOLLOWING"}
-    for (v, m), want in table.items():
-        got = fn(v, m)
-        rep.instance("R06.5", f"bound/{v}/{m}", sample={"sql": got})
-        if got != want:
-            rep.add(transp.fnd("R06.5", f"bound/{v}/{m}", vw, bs.lineno, f"window bound ({v!r}, {m!r}) is written `{got}`, VTL means `{want}`"))
-    txt = src(vw.node)
-    rep.instance("R06.5", "type-map")
-    m1 = re.search(r"if 'DATA' in type_str:\s*type_str = 'ROWS'", txt)
-    m2 = re.search(r"elif 'RANGE' in type_str:\s*type_str = 'RANGE'", txt)
-    if not (m1 and m2):
-        rep.add(transp.fnd("R06.5", "type-map", vw, vw.node.lineno, "`data points` must map to ROWS and `range` to RANGE in visit_Windowing"))
+    INF = 10 ** 6
+
+    def offset(v: object, mode: str) -> Optional[int]:
+        if v == "current row" or mode == "current":
+            return 0
+        if v == "unbounded" or v == -1:
+            return -INF if mode == "preceding" else INF
+        return -int(v) if mode == "preceding" else int(v)  # type: ignore[call-overload]
+
+    def parse_bound(txt: str) -> Optional[int]:
+        t = txt.strip().upper()
+        if t == "CURRENT ROW":
+            return 0
+        m_ = re.fullmatch(r"(UNBOUNDED|\d+|INTERVAL '(\d+)' DAY) (PRECEDING|FOLLOWING)", t)
+        if not m_:
+            return None
+        if m_.group(1) == "UNBOUNDED":
+            return -INF if m_.group(3) == "PRECEDING" else INF
+        n_ = int(m_.group(2) or m_.group(1))
+        return -n_ if m_.group(3) == "PRECEDING" else n_
+    bounds = [("unbounded", "preceding"), ("unbounded", "following"), ("current row", "current")] + [(k, d) for k in (0, 1, 2, 3) for d in ("preceding", "following")]
+    n_frames = 0
+    for wtype, want_kw in (("data", "ROWS"), ("range", "RANGE")):
+        for date in (False, True):
+            for (a, am) in bounds:
+                for (b, bm) in bounds:
+                    lo, hi = offset(a, am), offset(b, bm)
+                    if lo is None or hi is None or lo > hi or (lo == hi and abs(lo) == INF):
+                        continue  # not a frame VTL admits (the AST constructor orders / rejects these)
+                    node = sm.MNode("Windowing", type_=wtype, start=a, stop=b, start_mode=am, stop_mode=bm)
+                    it = Interp(P, externals={"self._resolve_scalar_varid": lambda x: x})
+                    try:
+                        got = it.call(vw, {"self": sm.MTranspiler(), "node": node, "order_is_date": date})
+                    except Unmodelled as e:
+                        raise AnalysisError(f"R06.5: visit_Windowing is outside the evaluator's language: {e}")
+                    except Raised as e:
+                        got = f"<raises {getattr(e.exc, 'kind', e.exc)}>"
+                    n_frames += 1
+                    key = f"frame/{wtype}{'/date' if date else ''}/{a}-{am}..{b}-{bm}"
+                    rep.instance("R06.5", key, sample={"sql": got})
+                    m_ = re.fullmatch(r"(ROWS|RANGE|GROUPS) BETWEEN (.+?) AND (.+)", str(got).strip())
+                    glo = parse_bound(m_.group(2)) if m_ else None
+                    ghi = parse_bound(m_.group(3)) if m_ else None
+                    if not m_ or m_.group(1) != want_kw or glo != lo or ghi != hi:
+                        rep.add(transp.fnd("R06.5", key, vw, vw.node.lineno,
+                                           f"window `{wtype}{' points' if wtype == 'data' else ''} between {a} {am} and {b} {bm}`" + (" (ordered by a Date)" if date else "") +
+                                           f" is written `{got}`; VTL means {want_kw} from offset {lo} to offset {hi} relative to the current datapoint "
+                                           f"(preceding = negative, following = positive, ±{INF} = unbounded)"))
+                    if date and wtype == "range" and m_ and any(isinstance(x, int) and x > 0 for x in (a, b)) and "INTERVAL" not in str(got):
+                        rep.add(transp.fnd("R06.5", key + "/interval", vw, vw.node.lineno,
+                                           f"RANGE frame over a Date ordering is written `{got}`: DuckDB needs an INTERVAL offset for a date ORDER BY (an integer offset is a binder error)"))
+    rep.floor("R06.5 frames evaluated", n_frames, 150)
     rep.assumptions = ["DuckDB's window functions of the same name implement the VTL analytic operators over the given OVER clause",
                        "grammar alternative <-> constructor method pairing (ANTLR naming)"]
